@@ -127,6 +127,20 @@ SetItem(n, pk, v) ==
        /\ ev' = [op |-> "SetItem", n |-> n, p |-> pk[1], k |-> pk[2], v |-> v,
                  out |-> Outcome(r), errpath |-> r.err.path, repl |-> r.repl]
 
+\* cfg["<p>.<k>.<dk>"] = v where <k> is a dict field: the last component of the dotted path is a KEY
+\* of the map the field holds (Config.__setitem__ hands the rest of the path to the value)
+SetDictItem(n, pk, dk, v) ==
+    /\ Built(n)
+    /\ LET cur == CfgAt(cfgs[n], pk[1]).vals[pk[2]] IN
+       IF cur.t # "dict"
+       THEN /\ UNCHANGED cfgs          \* no map to put the key into: nothing happens, nothing is created
+            /\ ev' = [op |-> "SetDictItem", n |-> n, p |-> pk[1], k |-> pk[2], dk |-> dk, v |-> v,
+                      out |-> "AttributeError", errpath |-> <<>>, repl |-> {}]
+       ELSE LET r == ContainerOp(S, cfgs[n], pk[1], pk[2], [m |-> "setitem", k |-> StrV(dk), v |-> v]) IN
+            /\ cfgs' = [cfgs EXCEPT ![n] = r.cfg]
+            /\ ev' = [op |-> "SetDictItem", n |-> n, p |-> pk[1], k |-> pk[2], dk |-> dk, v |-> v,
+                      out |-> Outcome(r), errpath |-> r.err.path, repl |-> {}]
+
 \* n = Config(schema, **kw): on rejection no object results and the name keeps its old object
 Ctor(n, kw) ==
     /\ LET r == Construct(S, kw) IN
@@ -231,6 +245,8 @@ Next ==
     \/ \E n \in Names, pk \in DOMAIN SetCandsNow : Tick /\ Reset(n, pk)
     \/ \E n \in Names, pk \in DOMAIN ListOpsNow : \E o \in ListOpsNow[pk] : Tick /\ COp(n, pk, o)
     \/ \E n \in Names, pk \in DOMAIN DictOpsNow : \E o \in DictOpsNow[pk] : Tick /\ COp(n, pk, o)
+    \/ \E n \in Names, pk \in DOMAIN DictOpsNow : \E dk \in {<<"k">>, <<"q", "2">>}, v \in {IntV(3), StrV(<<"x">>)} :
+            Tick /\ SetDictItem(n, pk, dk, v)
     \/ \E n \in Names : Tick /\ Check(n)
     \/ \E n \in Names : Tick /\ CheckCollect(n)
     \/ \E n \in Names : Tick /\ Query(n)
@@ -264,7 +280,7 @@ C01_Readback == [][A_Readback]_vars
 
 (* C06: a rejected operation of the covered kinds leaves everything as it was *)
 Covered(e) ==
-    \/ e.op \in {"SetAttr", "SetItem", "Ctor"}
+    \/ e.op \in {"SetAttr", "SetItem", "SetDictItem", "Ctor"}
     \/ e.op = "COp" /\ e.o.m \in {"append", "insert", "setitem", "setdefault", "item_set"}
 A_Unchanged == (ev'.out # "ok" /\ Covered(ev')) => cfgs' = cfgs /\ ev'.repl = {}
 C06_Unchanged == [][A_Unchanged]_vars
@@ -386,6 +402,11 @@ PathDeclared(f, path) ==
          ELSE IF f.kind = "dict" THEN Len(h) = 2 /\ h[1] = "@" /\ Tail(path) = <<>>
          ELSE FALSE
 IsPrefixOf(a, b) == Len(a) <= Len(b) /\ SubSeq(b, 1, Len(a)) = a
+\* a value rejected for an entry of a typed map reached by dotted path: the library's error,
+\* naming the map's path and the key
+C15_DictItemError ==
+    (ev.op = "SetDictItem" /\ ev.out \notin {"ok", "Unmodelled", "AttributeError"}) =>
+        ev.out = "ValidationError" /\ ev.errpath = Append(Append(ev.p, ev.k), <<"@", StrV(ev.dk)>>)
 C15_Error ==
     (ev.op \in {"SetAttr", "SetItem"} /\ ev.out \notin {"ok", "Unmodelled"}
         /\ HasField(SchemaAt(S, ev.p), ev.k) /\ FieldOf(SchemaAt(S, ev.p), ev.k).kind # "virtual") =>
